@@ -29,7 +29,7 @@ RULE = (
     "objects - of one running order, and of three - is ascending by integer message ID.  Non-trivial = >= 3 messages, IDs of >= 2 digit "
     "counts, permutation != sorted order.")
 ASSUMPTIONS = ['message IDs are distinct integers']
-MANDATORY = ['padded-message-id', 'constructor:strings', 'constructor:files', 'constructor:s3', 'lexical!=numeric',
+MANDATORY = ['more-than-16-messages', 'padded-message-id', 'constructor:strings', 'constructor:files', 'constructor:s3', 'lexical!=numeric',
              'permutation!=sorted', 'sorted(MosFile)']
 
 
@@ -45,6 +45,9 @@ def build(docs, source, workdir, tag):
             if tag.endswith('1') or tag.endswith('3'):
                 os.makedirs(os.path.join(d, f'dir{n:03d}'), exist_ok=True)
                 p = os.path.join(d, f'dir{n:03d}', 'message.mos.xml')
+            elif tag.endswith('2') or tag.endswith('4'):
+                # names that differ only in letter case (two different files on a case-sensitive file system)
+                p = os.path.join(d, ('Msg%02d.mos.xml' if n % 2 else 'msg%02d.mos.xml') % (n // 2))
             else:
                 p = os.path.join(d, f'{n:03d}.mos.xml')
             with open(p, 'w', encoding='utf-8') as f:
@@ -126,7 +129,9 @@ def rejudge(case):
 
 @st.composite
 def cases(draw):
-    col = draw(colgen.collection(min_msgs=2, max_msgs=7, faults='some', pad_ids=draw(st.booleans())))
+    big = draw(st.integers(0, 7)) == 0          # now and then more than 16 messages
+    col = draw(colgen.collection(min_msgs=17 if big else 2, max_msgs=22 if big else 7, faults='some',
+                                 pad_ids=draw(st.booleans())))
     docs = col['docs']
     n = len(docs)
     if n <= 4:
@@ -148,6 +153,8 @@ def shard(args):
         widths = {len(str(m)) for m in mids}
         lex = sorted(mids, key=str) != sorted(mids)
         classes = [f'constructor:{s}' for s in case['sources']] + ['sorted(MosFile)']
+        if len(case['docs']) > 17:
+            classes.append('more-than-16-messages')
         if lex:
             classes.append('lexical!=numeric')
         nonsorted = any(p != sorted(p) for p in case['perms'])
